@@ -1,6 +1,8 @@
 SPECIFICATION Spec
 CONSTANTS MaxLen = 2 MaxN = 4 Infinite = TRUE MaxOut = 4
+  Vals = "nat" Stops = TRUE MaxRuns = 1
   Alphabet <- AlphaC02
+  Must <- NoMust
   Pairs <- OnlyPairs
 INVARIANT OpEqDen
 INVARIANT OutIsPrefix
@@ -8,5 +10,7 @@ INVARIANT NoWorkBeforeDemand
 INVARIANT PullOnlyWhenDrained
 INVARIANT LazyEqDen
 INVARIANT Buffers
+INVARIANT SliceIsPySlice
+PROPERTY NoPullAfterStop
 CONSTRAINT Bounded
 CHECK_DEADLOCK FALSE
